@@ -517,3 +517,104 @@ Definition spec_C13_oto (same_peer : bool) (eq_ab_ba eq_ab_ac : list bool) : boo
 Definition tp_eqs (p q : tpayload) : list bool :=
   [tm_eqb (t_id p) (t_id q); tm_eqb (t_raw p) (t_raw q); tm_eqb (t_aclid p) (t_aclid q);
    tm_eqb (t_acl p) (t_acl q); tm_eqb (t_setid p) (t_setid q); tm_eqb (t_set p) (t_set q)].
+
+(* ------------------------------------------------------------------------------------------------ *)
+(* (3) OVERLAPPING derivations (one process derives several one-to-one spaces / keys at the same time) *)
+(* ------------------------------------------------------------------------------------------------ *)
+
+(* crypto.GenerateSharedKey ends in a SLIP-21 chain: node_0 = HMAC("Symmetric key seed", seed),
+   node_{i+1} = HMAC(chain code of node_i, 0x00 ++ label_i); the key is read out of the last node.
+   slip21.DeriveForPath allocates a fresh Node per step, so every in-flight call owns its node.
+   A call is a small-step machine; a schedule (list of call indices) interleaves the steps of several calls.
+   [K] = 64-byte node, [L] = label, [S] = seed; HMAC is not logic: [master], [child] are Section variables. *)
+Section Derivation.
+  Variable K L S : Type.
+  Variable master : S -> K.
+  Variable child : K -> L -> K.
+
+  (* what one call computes when nothing else runs *)
+  Definition derive_seq (seed : S) (labels : list L) : K := fold_left child labels (master seed).
+
+  Record dcall := mkDCall {
+    dc_seed : S;
+    dc_todo : list L;            (* labels not yet consumed *)
+    dc_node : option K;          (* the call's own node; None = master node not computed yet *)
+    dc_out : option K            (* the key material copied out at the end *)
+  }.
+
+  Definition dcall_init (sl : S * list L) : dcall := mkDCall (fst sl) (snd sl) None None.
+
+  (* one step of one call, node held by the call itself (the code as it is) *)
+  Definition step_own (c : dcall) : dcall :=
+    match dc_out c with
+    | Some _ => c
+    | None =>
+      match dc_node c with
+      | None => mkDCall (dc_seed c) (dc_todo c) (Some (master (dc_seed c))) None
+      | Some n =>
+        match dc_todo c with
+        | l :: r => mkDCall (dc_seed c) r (Some (child n l)) None
+        | [] => mkDCall (dc_seed c) [] (Some n) (Some n)
+        end
+      end
+    end.
+
+  Fixpoint upd_nth {X : Type} (i : nat) (f : X -> X) (l : list X) : list X :=
+    match l, i with
+    | [], _ => []
+    | x :: r, O => f x :: r
+    | x :: r, Datatypes.S j => x :: upd_nth j f r
+    end.
+
+  Definition run_own (sched : list nat) (cs : list dcall) : list dcall :=
+    fold_left (fun st i => upd_nth i step_own st) sched cs.
+
+  (* the same calls over ONE node buffer shared by all of them (a process-wide, reusable deriver):
+     every step reads the chain code out of the shared buffer and writes its result back into it *)
+  Definition step_shared (buf : option K) (c : dcall) : option K * dcall :=
+    match dc_out c with
+    | Some _ => (buf, c)
+    | None =>
+      match dc_node c with
+      | None => let n := master (dc_seed c) in (Some n, mkDCall (dc_seed c) (dc_todo c) (Some n) None)
+      | Some own =>
+        let cur := match buf with Some b => b | None => own end in
+        match dc_todo c with
+        | l :: r => let n := child cur l in (Some n, mkDCall (dc_seed c) r (Some n) None)
+        | [] => (buf, mkDCall (dc_seed c) [] (Some cur) (Some cur))
+        end
+      end
+    end.
+
+  Definition run_shared (sched : list nat) (cs : list dcall) : option K * list dcall :=
+    fold_left (fun st i =>
+                 match nth_error (snd st) i with
+                 | Some c => let '(b, c') := step_shared (fst st) c in (b, upd_nth i (fun _ => c') (snd st))
+                 | None => st
+                 end) sched (None, cs).
+
+  (* number of steps a call needs: master node, one per label, copy-out *)
+  Definition steps_of (sl : S * list L) : nat := Datatypes.S (Datatypes.S (length (snd sl))).
+End Derivation.
+
+Arguments mkDCall {K L S}. Arguments dc_seed {K L S}. Arguments dc_todo {K L S}.
+Arguments dc_node {K L S}. Arguments dc_out {K L S}.
+
+(* observed results of derivations by [a] that OVERLAP in time, each compared field by field with what each contact
+   derives on its own: [same] = the result was requested for that contact.  Same contact: every field identical;
+   another contact: every field different. *)
+Definition spec_C13_conc (pairs : list (bool * list bool)) : bool :=
+  forallb (fun sp : bool * list bool =>
+             if fst sp then forallb (fun b => b) (snd sp) else forallb negb (snd sp)) pairs.
+
+(* the three derivation paths of crypto: space, read key, metadata key *)
+Definition PATH_READ : N := 2.      (* crypto.AnysyncReadOneToOneSpacePath *)
+Definition PATH_META : N := 3.      (* crypto.AnysyncMetadataOneToOnePath *)
+Definition oto_paths : list N := [PATH_SPACE; PATH_READ; PATH_META].
+
+Definition keys_eqs (dh : N -> N -> N) (kle : N -> N -> bool) (a b a' b' : N) : list bool :=
+  map (fun p => skey_eqb (shared_key dh kle a b p) (shared_key dh kle a' b' p)) oto_paths.
+
+(* all (result, contact) pairs: [reqs] = contacts whose results were observed, [contacts] = all contacts *)
+Definition conc_pairs (eqs : N -> N -> list bool) (reqs contacts : list N) : list (bool * list bool) :=
+  flat_map (fun b => map (fun b' => (N.eqb b b', eqs b b')) contacts) reqs.
